@@ -52,7 +52,10 @@ ASSUMPTIONS = [
   "round trip judges the reader against the independently parsed written text (times, payload text lines); what the "
   "writer chose to write is C06/C07; a writer exception is counted and not judged here; documents are the reader's own "
   "outputs for the generated files (the C06 model-document workload is not available to this check)",
-  "<rt> outside <ruby>, empty files, identifiers starting with STYLE/NOTE and character references in <v> annotations are "
+  "known-finding classifier D-VTT-RUBY-IN-SPAN (known_finding()): TypeError 'Children of span must be span or br instances' "
+  "from model.Span.push_child on a witness whose <ruby> lies inside another tag or after an inline timestamp - the canonical "
+  "model only allows Ruby as a child of P",
+  "<rt> outside <ruby> (plain text for a WebVTT parser: no ruby role expected), empty files, identifiers starting with STYLE/NOTE and character references in <v> annotations are "
   "generated in dedicated optional classes only",
 ]
 REQUIRED = ["files:read", "cues:compared", "clause:count-order", "clause:blocks-skipped", "clause:time", "clause:text",
